@@ -9,7 +9,8 @@ RULE = ("PROVED part: the Lsp pipeline model (no step is ever blocked, queues dr
         "with parseable and syntactically broken documents, CRLF, the config file disappearing and re-appearing, against the "
         "real server with all workers (thorough: built with -race); the client answers server requests; oracle: no crash, "
         "every request answered within 10 s, idle afterwards, still answering. distinct = distinct sequence; non-trivial = "
-        "contains a feature request on a document that was changed before")
+        "contains a feature request on a document that was changed before"
+        ' Also: a directed scenario library (stale parse state + feature requests, vanishing files + queue overflow, empty lists / omitted optional fields per client flavour, config reloads with true notifications), the field-write inventory facts.lsp, and sequences under an oracle built with -race in every tier.')
 TRUSTED = ["sourcegraph/jsonrpc2 (synchronous dispatch of HandlerWithError)"]
 ASSUMPTIONS = ["absence of panics and data races in the ~25 handlers over arbitrary documents is explored, not proved"]
 
